@@ -210,6 +210,13 @@ def _source_stage(R, cid):
             return True, ''
         ok, log = C.coq_make([f'Props/{cid}.vo'])
         if ok_tr and ok:
+            # the calling check's proof stage ran BEFORE this regeneration, possibly against a stale Gen/PyPattern.v left
+            # by a run on another tree: redo it and update the caller's record in place
+            if R.proof is not None and not R.proof.get('ok'):
+                fresh = C.prop_check(cid)
+                R.proof.clear()
+                R.proof.update(fresh)
+                R.notes.append('proof stage repeated after coq/Gen/PyPattern.v was regenerated from the current tree')
             return True, ''
         if not ok_tr:
             break
